@@ -127,8 +127,45 @@ def run(rep, work, rng, tier):
         if not out or not out[0].startswith('H '): continue
         snap = harness.Snap(out); snaps[cid] = snap
         cases.append((cid, lines + add_gets(lines, snap, rng)))
-    sel = lambda ln: ln.startswith('get.') or ln.startswith('mk.')
+    # typed reads of a caller-side parameter after accepted AND refused sets: the type a parameter answers to is the type of
+    # the last ACCEPTED set
+    nreg = 0
+    for i in range(n):
+        lines = ['P.new %s x' % hx(b'REG')]; 
+        for _ in range(rng.choice([1, 2, 3, 4])):
+            ty = rng.choice('IFS'); nd = rng.choice([0, 1, 1, 2]); dims = [rng.choice([0, 1, 2, 3]) for _ in range(nd)]
+            k = 1
+            for d in dims: k *= d
+            if nd == 0: k = rng.choice([0, 1, 2])
+            if rng.random() < 0.45: k = k + 1 if (k == 0 or rng.random() < 0.5) else k - 1      # refused on purpose
+            if ty == 'I': vals = [str(rng.choice([0, 1, -1, 127, -128, 255, 32767, -32768])) for _ in range(k)]
+            elif ty == 'F': vals = [harness.fhex(gen.rfloat(rng)) for _ in range(k)]
+            else: vals = [hx(gen.rname(rng, 6)) for _ in range(k)]
+            lines.append(('P.set %s %d %s %d %s' % (ty, nd, ' '.join(map(str, dims)), k, ' '.join(vals))).replace('  ', ' ').rstrip())
+            for t in 'CBIF': lines.append('P.as ' + t)
+        cases.append(('reg%d' % i, lines)); nreg += 1
+    sel = lambda ln: ln.startswith('get.') or ln.startswith('mk.') or ln.startswith('P.as')
     (c, _), (m, _), nd = common.correspondence(rep, work, cases, select=sel, label='look-ups')
+    # oracle for the register histories
+    regbad = 0
+    for cid, lines in cases:
+        if not cid.startswith('reg'): continue
+        cl, cs = c.get(cid, ([], 'missing')); cur = None; hist = []
+        for ln, out in harness.split_ops(lines, cl):
+            hist.append(ln); got = out[0] if out else '<none:%s>' % cs; t = ln.split(' ')
+            if t[0] == 'P.set':
+                if got == 'ok':
+                    nd_ = int(t[2]); k = int(t[3 + nd_]); vals = t[4 + nd_:4 + nd_ + k]
+                    cur = ({'S': 'C'}.get(t[1], t[1]), vals)
+            elif t[0] == 'P.as':
+                if cur is None or cur[0] != t[1]: e = 'throw invalid_argument'
+                elif t[1] == 'C': e = None      # strings are padded/trimmed by the setter: compared through the model
+                else: e = 'ok' + ''.join(' ' + v for v in cur[1])
+                if e is not None and got != e:
+                    regbad += 1
+                    if regbad <= 3:
+                        rep.violation('oracle', 'typed read %s of a parameter whose last accepted set was %s returned %r, documented result %r' % (ln, cur[0] if cur else 'none', got[:120], e),
+                                      script=[l for l in hist if not l.startswith('P.as')] + [ln], signature='lookup:P.as')
     # direct oracle: the documented result, from the snapshot of the C++ object
     ev = 0; kinds = {}; bad = 0; outcomes = {}
     for cid, lines in cases:
@@ -139,6 +176,7 @@ def run(rep, work, rng, tier):
             got = out[0] if out else '<none:%s>' % cs
             oc = got.split(' ')[0] + (' ' + got.split(' ')[1] if got.startswith('throw') else '')
             outcomes[oc] = outcomes.get(oc, 0) + 1
+            if cid.startswith('reg'): continue
             e = expect(ln, snaps[cid])
             if e is None: continue
             ok = got.startswith(e[1]) if isinstance(e, tuple) else got == e
@@ -149,4 +187,4 @@ def run(rep, work, rng, tier):
                                   script=[l for l in lines if not sel(l)] + [ln], signature='lookup:' + k)
     rep.coverage.update(dict(evaluations=ev, distinct_nontrivial=len(set(l for _, ls in cases for l in ls if sel(l))),
         rule='objects from %d random histories; on each, every container is accessed at {0..3, size-1, size, size+1, 2^32, 2^32+1, 2^63, 2^64-1} and by present/absent/case-variant/space-padded names; each result is compared with the model and with the documented result computed from the C++ snapshot; distinct = distinct look-up lines' % len(cases),
-        samples=[cases[0][1][-3:]] if cases else [], op_kinds=kinds, outcome_classes=outcomes, disagreements=nd, oracle_failures=bad))
+        samples=[cases[0][1][-3:]] if cases else [], op_kinds=kinds, outcome_classes=outcomes, disagreements=nd, oracle_failures=bad + regbad, register_histories=nreg))
